@@ -325,6 +325,9 @@ func (c LegacyTextCase) text() string {
 
 func genLegacyText(t *rapid.T) LegacyTextCase {
 	n := rapid.IntRange(0, 8).Draw(t, "n")
+	if rapid.IntRange(0, 15).Draw(t, "many") == 7 {
+		n = rapid.SampledFrom([]int{31, 32, 33, 40, 64, 65, 200}).Draw(t, "manyN") // long token lists
+	}
 	c := LegacyTextCase{Lead: rapid.SampledFrom([]int{0, 0, 0, 1, 3}).Draw(t, "lead")}
 	keys := []string{"IFVer", "SSHClientVersion", "req", "req", "req", "HardKey", "Touch2SSH", "IsFirefighter", "TouchlessSudoHosts", "TouchlessSudoTime", "privKeyNeeded", "x", "REQ", "hardkey"}
 	for i := 0; i < n; i++ {
@@ -440,7 +443,7 @@ func execLegacyText(c LegacyTextCase) (vh.Outcome, error) {
 
 func TestC15LegacyText(t *testing.T) {
 	vh.Run(t, vh.Spec[LegacyTextCase]{Property: "C15", Name: "TestC15LegacyText",
-		Rule: "legacy texts of 0..8 tokens over the documented keys (plus case variants and unknown keys) as bare key, 'k=' or 'k=v' with '=' inside values, repeated keys, leading and repeated spaces; requester values with 0..2 '@'. Oracle (set-valued reference tokeniser, any occurrence of a repeated key may win): accepted iff a requester token with exactly one '@' is used, every field follows from some token of its key, every token is mirrored in the extension map and nothing else is. Non-trivial: >=2 keys with a repeated key or a run of spaces.",
+		Rule: "legacy texts of 0..8 (rarely 31..200) tokens over the documented keys (plus case variants and unknown keys) as bare key, 'k=' or 'k=v' with '=' inside values, repeated keys, leading and repeated spaces; requester values with 0..2 '@'. Oracle (set-valued reference tokeniser, any occurrence of a repeated key may win): accepted iff a requester token with exactly one '@' is used, every field follows from some token of its key, every token is mirrored in the extension map and nothing else is. Non-trivial: >=2 keys with a repeated key or a run of spaces.",
 		Gen:  genLegacyText, Exec: execLegacyText})
 }
 
